@@ -167,31 +167,7 @@ def check(ctx, rep):
             rep.expect('R05.b', bool(order), '%s|publish-before-wake' % adt, 'enqueue and woken.store dominate the parent wake',
                        '%s::wake_by_ref wakes the parent before the task is enqueued / marked woken' % adt)
     # ---- R05.c
-    polls = hand_written_polls(core) + hand_written_polls(time)
-    if len(polls) < 7:
-        rep.bad('R05.c', 'poll-sites', 'expected at least 7 hand-written poll functions, found %d: %s' % (len(polls), [f.path for f in polls]))
-    for f in polls:
-        cx = cx_param(f)
-        if cx is None:
-            rep.bad('R05.c', '%s|cx' % f.kpath, 'no Context parameter found')
-            continue
-        pend = pending_blocks(f)
-        caps = waker_capture_blocks(f, cx)
-        edges = delegated_pending_edges(f, cx)
-        r = f.reachable_ps([0], removed_blocks=caps, removed_edges=edges)
-        naked = [b for b in pend if b in r]
-        key = '%s|pending-has-waker' % f.kpath
-        if naked and f.kpath in PENDING_EXCEPTIONS:
-            # the exception covers exactly one Pending site
-            if len(naked) == 1:
-                rep.ok('R05.c', key, 'tabled: ' + PENDING_EXCEPTIONS[f.kpath])
-            else:
-                rep.bad('R05.c', key, '%s has %d unwakeable Pending returns, the table allows one' % (f.path, len(naked)))
-        else:
-            rep.expect('R05.c', not naked, key,
-                       '%d Pending return(s), each after keeping the waker (%d site(s)) or on a delegated Pending edge (%d)' % (len(pend), len(caps), len(edges)),
-                       '%s can return Poll::Pending at %s without having kept the waker and without a delegated poll being Pending: '
-                       'nothing will ever wake this task' % (f.path, [f.where(b) for b in naked]))
+    check_pending_wakers(rep, 'R05.c', core, time)
     # ---- R05.d / R05.e legacy futures
     for mod, slot in (('shell_request', 'result'), ('shell_stream', 'receiver')):
         pf = [f for f in hand_written_polls(core) if ('capability::%s::' % mod) in f.npath]
@@ -237,6 +213,35 @@ def check(ctx, rep):
                    'legacy %s resolve closure can deliver a value without waking the stored waker' % mod)
     rep.assume('futures::channel::mpsc wakes its registered receiver task on send and on sender drop (third-party contract)')
     rep.assume('AtomicWaker::register/wake pairing is race-free (futures contract)')
+
+
+def check_pending_wakers(rep, rid, core, time):
+    """every path of a hand-written poll that returns Pending has kept the waker of THIS poll or follows a delegated Pending"""
+    polls = hand_written_polls(core) + hand_written_polls(time)
+    if len(polls) < 7:
+        rep.bad(rid, 'poll-sites', 'expected at least 7 hand-written poll functions, found %d: %s' % (len(polls), [f.path for f in polls]))
+    for f in polls:
+        cx = cx_param(f)
+        if cx is None:
+            rep.bad(rid, '%s|cx' % f.kpath, 'no Context parameter found')
+            continue
+        pend = pending_blocks(f)
+        caps = waker_capture_blocks(f, cx)
+        edges = delegated_pending_edges(f, cx)
+        r = f.reachable_ps([0], removed_blocks=caps, removed_edges=edges)
+        naked = [b for b in pend if b in r]
+        key = '%s|pending-has-waker' % f.kpath
+        if naked and f.kpath in PENDING_EXCEPTIONS:
+            # the exception covers exactly one Pending site
+            if len(naked) == 1:
+                rep.ok(rid, key, 'tabled: ' + PENDING_EXCEPTIONS[f.kpath])
+            else:
+                rep.bad(rid, key, '%s has %d unwakeable Pending returns, the table allows one' % (f.path, len(naked)))
+        else:
+            rep.expect(rid, not naked, key,
+                       '%d Pending return(s), each after keeping the waker (%d site(s)) or on a delegated Pending edge (%d)' % (len(pend), len(caps), len(edges)),
+                       '%s can return Poll::Pending at %s without having kept the waker and without a delegated poll being Pending: '
+                       'nothing will ever wake this task' % (f.path, [f.where(b) for b in naked]))
 
 
 def c01_adt(core, adt):
